@@ -349,6 +349,40 @@ func main() {
 							return explore.Failf("UnmaskFrame-aliases", "")
 						}
 					}
+					// the copying variants on frames in every header state (mask bit set or clear,
+					// mask key zero or not): the input is never modified, the result never aliases it,
+					// the transform is the XOR with the key in the header (Unmask) / the new key (Mask)
+					for _, masked := range []bool{false, true} {
+						for _, hk := range [][4]byte{{}, {9, 8, 7, 6}} {
+							f := mk()
+							f.Header.Masked, f.Header.Mask = masked, hk
+							in := f.Payload
+							g := ws.UnmaskFrame(f)
+							if !bytes.Equal(in, orig) {
+								return explore.Failf("UnmaskFrame-mutates-input", "header masked=%v key=%x", masked, hk)
+							}
+							if !bytes.Equal(g.Payload, refmodel.XOR(orig, hk, 0)) || g.Header.Masked || g.Header.Mask != [4]byte{} {
+								return explore.Failf("UnmaskFrame-result", "header masked=%v key=%x", masked, hk)
+							}
+							if n > 0 && &g.Payload[0] == &in[0] {
+								return explore.Failf("UnmaskFrame-aliases", "")
+							}
+							h := ws.MaskFrameWith(f, key)
+							if !bytes.Equal(in, orig) {
+								return explore.Failf("MaskFrameWith-mutates-input", "header masked=%v key=%x", masked, hk)
+							}
+							if !h.Header.Masked || h.Header.Mask != key || !bytes.Equal(h.Payload, refmodel.XOR(orig, key, 0)) {
+								return explore.Failf("MaskFrameWith-result", "header masked=%v key=%x", masked, hk)
+							}
+							h2 := ws.MaskFrame(f)
+							if !bytes.Equal(in, orig) {
+								return explore.Failf("MaskFrame-mutates-input", "header masked=%v key=%x", masked, hk)
+							}
+							if !h2.Header.Masked || !bytes.Equal(h2.Payload, refmodel.XOR(orig, h2.Header.Mask, 0)) {
+								return explore.Failf("MaskFrame-result", "header masked=%v key=%x", masked, hk)
+							}
+						}
+					}
 					// in-place variants
 					{
 						f := mk()
